@@ -9,8 +9,106 @@
 #[path = "keylife/mod.rs"]
 mod keylife;
 
+#[path = "c05x/multi.rs"]
+mod multi;
+
 use hx_common::{Case, Rng, run_harness};
-use keylife::{CAPS, DRIVERS, Weights, case, epilogue, exec_isolated, random_program, worker_main};
+use keylife::{CAPS, DRIVERS, Weights, case, epilogue, exec_case_streaming, exec_isolated, nontrivial, random_program};
+
+/// worker side (same protocol as `keylife::worker_main`): cases that start with `mfd` run in the multi-descriptor world
+/// (`c05x/multi.rs`), everything else in the shared key life-cycle interpreter
+fn worker_main() {
+    use std::io::{BufRead, Write};
+    const SEP: char = '\u{1f}';
+    std::panic::set_hook(Box::new(|_| {}));
+    let stdin = std::io::stdin();
+    let mut out = std::io::stdout();
+    let mut name = String::new();
+    let mut lines: Vec<String> = vec![];
+    for l in stdin.lock().lines() {
+        let l = l.unwrap();
+        if let Some(n) = l.strip_prefix("#case ") {
+            name = n.to_string();
+            lines.clear();
+        } else if l == "#end" {
+            let case = Case { name: name.clone(), lines: lines.clone() };
+            let mut emit = |o: &str| {
+                writeln!(out, "o{SEP}{o}").unwrap();
+                out.flush().unwrap();
+            };
+            let ex = if case.lines.first().map(|l| l.starts_with("mfd")).unwrap_or(false) {
+                multi::exec_multi(&case, &mut emit)
+            } else {
+                exec_case_streaming(&case, nontrivial, &mut emit)
+            };
+            for f in &ex.failures {
+                writeln!(out, "f{SEP}{}{SEP}{}", f.sig, f.detail.replace('\n', " ")).unwrap();
+            }
+            for t in &ex.tags {
+                writeln!(out, "t{SEP}{t}").unwrap();
+            }
+            writeln!(out, "n{SEP}{}", ex.nontrivial).unwrap();
+            writeln!(out, "#done").unwrap();
+            out.flush().unwrap();
+        } else {
+            lines.push(l);
+        }
+    }
+}
+
+/// an operation that waits on TWO descriptors (`Splice` pipe -> pipe; seeded/C05-4a): cancelled while parked, by every
+/// route, before / after the poller saw the ready half, alone or with a second splice queued behind it on both
+/// descriptors; then the missing half becomes ready: nothing of the cancelled operation may run
+fn multi_family(out: &mut Vec<Case>, thorough: bool) {
+    for drv in DRIVERS {
+        for fed in [1, 0] {
+            for route in ROUTES {
+                for polled in [false, true] {
+                    for nb in [false, true] {
+                        if nb && drv == "iour" {
+                            continue; // two blocking splices on one pipe: completion order is the kernel's business
+                        }
+                        if drv == "iour" && fed == 1 && polled {
+                            // the splice already blocks in io-wq WRITING to the full pipe: the kernel answers the AsyncCancel
+                            // with -ERESTARTSYS (512) instead of -ECANCELED (observed; noted in notes/C05.md, not modelled)
+                            continue;
+                        }
+                        for late_pop in [false, true] {
+                            if late_pop && !thorough && !(polled && fed == 1) {
+                                continue;
+                            }
+                            let mut l = vec![format!("mfd {drv} {fed}"), "msplice".to_string()];
+                            if nb {
+                                l.push("msplice".into());
+                            }
+                            if polled {
+                                l.push("mpoll".into());
+                            }
+                            l.push(format!("mcancel 0 {route}"));
+                            l.push("mpoll".into());
+                            if !late_pop {
+                                l.push("mpop 0".into());
+                            }
+                            l.push("mstate".into());
+                            if fed == 0 {
+                                l.push("mfeed".into());
+                            }
+                            l.push("mdrain".into());
+                            l.push("mpoll".into());
+                            l.push("mstate".into());
+                            if nb {
+                                l.push("mpop 1".into());
+                            }
+                            l.push("mpop 0".into());
+                            l.push("mstate".into());
+                            out.push(case(format!("multi/{drv}/fed{fed}/{route}/{polled}/{nb}/{late_pop}"), l));
+                        }
+                    }
+                }
+            }
+        }
+    }
+}
 
 const ROUTES: [&str; 3] = ["cancel", "token", "ccancel"];
 
@@ -144,6 +242,8 @@ fn rt_family(out: &mut Vec<Case>, thorough: bool) {
     let mut progs: Vec<&str> = vec![
         "r", "r,r", "F,r", "F,k", "F,r,r", "X,r", "X,k,r", "r,k", "k,F,r", "k,X,r", "d,F,r", "F,d,r", "r,d,k", "s,X,s,r",
         "d,r,F,k", "k,r,r", "F,F,r", "r,X,r",
+        // the other submit flavours (with_extra, multishot stream), registered before / after the token fires
+        "e", "m", "F,e", "F,m", "X,e", "X,m", "F,E", "F,M", "E", "M", "e,m,r", "F,r,e,m", "k,X,E,M", "d,F,e",
     ];
     if thorough {
         progs.extend(["r,r,r,r", "k,k,F,k,k", "X,d,d,r,d", "d,d,F,d,k,r", "s,F,s,r,s,r", "r,F,X,r", "X,X,k", "k,d,X,d,r,k"]);
@@ -282,6 +382,7 @@ fn generate(tier: &str, rng: &mut Rng) -> Vec<Case> {
     let mut out = vec![];
     let thorough = tier == "thorough";
     f9_family(&mut out, rng);
+    multi_family(&mut out, thorough);
     rt_family(&mut out, thorough);
     repeat_family(&mut out, rng);
     if thorough {
